@@ -164,6 +164,21 @@ def gen_case(rng, kind, tier):
     return case
 
 
+def counts_case(rng):
+    """4-8 discrete values whose counts mix very rare and over-represented ones: chains of rare-bucket merges in
+    both directions (a backward merge followed by a forward one puts the largest boundary in the middle)"""
+    k = rng.randint(4, 8)
+    counts = [rng.choice([2, 3, 5, 8, 12, 15, 20, 30, 60, 100, 150]) for _ in range(k)]
+    xs = [float(v) for v, c in enumerate(counts) for _ in range(c)]
+    rng.shuffle(xs)
+    lo_, hi_ = min(xs), max(xs)
+    rank = [(x - lo_) / (hi_ - lo_) if hi_ > lo_ else 0.5 for x in xs]
+    binary = rng.random() < 0.6
+    return {"kind": "quant", "cls": rng.choice(["QuantitativeDiscretizer", "Discretizer"]),
+            "min_freq": float(rng.choice([0.05, 0.1, 0.15, 0.2])).hex(), "binary": binary, "shape": "mixed_counts",
+            "x": [enc(x) for x in xs], "y": gen_target(rng, rank, binary), "order": None, "extra": False}
+
+
 def band_case(rng):
     """a leftover bucket whose share lies between 1/(2q) and min_freq/2, q = round(1/min_freq) > 1/min_freq:
     rare by the property's threshold (min_freq/2) but not in the unit the quantile search uses"""
@@ -290,6 +305,8 @@ class C09(Prop):
                 cases.append(c)
         for _ in range(24 if tier == "quick" else 400):
             cases.append(band_case(rng))
+        for _ in range(160 if tier == "quick" else 1500):
+            cases.append(counts_case(rng))
         return cases
 
     def search_cases(self, rng, neighbours, rnd):
